@@ -21,11 +21,11 @@ ASSUMPTIONS = ["each process holds or awaits at most one request per resource at
 FLOORS = {"quick": {"grants": 20000, "advance_checks": 20000, "evictions": 500, "refused_evictions": 500,
                     "cancels_waiting": 1000, "cancel_noop_granted": 20, "double_releases": 500,
                     "nonuser_releases": 300, "with_exits": 2000, "preempted_causes_checked": 500,
-                    "grants_with_others_waiting": 3000},
+                    "grants_with_others_waiting": 3000, "evictions_among_equal_keys": 30},
           "thorough": {"grants": 400000, "advance_checks": 400000, "evictions": 10000, "refused_evictions": 10000,
                        "cancels_waiting": 20000, "cancel_noop_granted": 400, "double_releases": 10000,
                        "nonuser_releases": 6000, "with_exits": 40000, "preempted_causes_checked": 10000,
-                       "grants_with_others_waiting": 60000}}
+                       "grants_with_others_waiting": 60000, "evictions_among_equal_keys": 600}}
 GRID = [0, 0, 1, 1, 2, 3, 0.5]
 
 
@@ -142,9 +142,13 @@ class Shadow:
                 self.bad("eviction-in-non-preemptive", "a user lost its slot without releasing it in a non-preemptive resource", where)
                 continue
             for u in stayed:
-                if self.key(u) > self.key(v):
+                # worst-ranked by (priority, request time, preempting-first, arrival): among users
+                # with equal keys the latest arrival is the worst
+                if self.rank(u) > self.rank(v):
                     self.bad("evicted-not-the-worst", "the evicted user was not the worst-ranked current user",
-                             {"victim": self.key(v), "kept": self.key(u)})
+                             {"victim": self.rank(v), "kept": self.rank(u)})
+                if self.key(u) == self.key(v):
+                    self.stats["evictions_among_equal_keys"] += 1
             v["stayed_keys"] = [self.key(u) for u in stayed]
             v["granted_then"] = granted
         self.seen_users = now_ids
@@ -379,7 +383,7 @@ def run_case(case, stats):
 
 KEYS = ("grants", "advance_checks", "evictions", "refused_evictions", "cancels_waiting", "cancel_noop_granted",
         "double_releases", "nonuser_releases", "with_exits", "preempted_causes_checked", "capacity_checks",
-        "grants_with_others_waiting", "pokes")
+        "grants_with_others_waiting", "pokes", "evictions_among_equal_keys")
 
 
 def one_case(ctx, case):
